@@ -26,6 +26,11 @@ Theorem c16_hll_coupon_range :
   forall h, let c := hll_coupon_of h in c mod 2 ^ 26 < 2 ^ 26 /\ 1 <= c / 2 ^ 26 <= 63.
 Proof. exact hll_coupon_range. Qed.
 
+Theorem c16_hll_coupon_fields :
+  forall h, let c := hll_coupon_of h in
+  c mod 2 ^ 26 = fst h mod 2 ^ 26 /\ c / 2 ^ 26 = N.min (lz64 (snd h)) 62 + 1.
+Proof. exact hll_coupon_fields. Qed.
+
 Theorem c16_theta_hash_range : forall h, fst h < M64 -> theta_hash_of h < 2 ^ 63.
 Proof. exact theta_hash_range. Qed.
 
